@@ -295,10 +295,11 @@ void determineUnitRangesLoopGraph(GraphTy& graph, uint32_t unitsToSplit,
       returnRanges[i + 1] = returnRanges[i];
     }
 
+    // (no edge count here: for a unit without nodes the node ids
+    // returnRanges[i + 1] - 1 / returnRanges[i] are out of range, and gDebug
+    // evaluates its arguments in release builds too)
     galois::gDebug("LoopGraph Unit ", i, " gets nodes ", returnRanges[i],
-                   " to ", returnRanges[i + 1], ", num edges is ",
-                   graph.edge_end(returnRanges[i + 1] - 1) -
-                       graph.edge_begin(returnRanges[i]));
+                   " to ", returnRanges[i + 1]);
   }
 }
 
